@@ -110,6 +110,80 @@ def cli(t, usec=0, layout="utmp"):
     return gen.fmt_ts(SECS[layout][t], usec * 1000, None, 6)
 
 
+FOREIGN = ["NetBSD9.3/x86_32/wtmpx", "NetBSD9.3/x86_32/utmpx", "NetBSD9.3/x86_64/wtmpx", "NetBSD9.3/x86_64/utmpx", "NetBSD9.3/x86_32/acct",
+           "NetBSD9.3/x86_64/acct", "NetBSD9.3/x86_32/wtmp", "NetBSD9.3/x86_64/wtmp", "OpenBSD7.2/x86_32/wtmp", "OpenBSD7.4/x86_64/wtmp",
+           "Ubuntu16/x86_32/wtmp", "Debian11/armv6l_ARMv6/wtmp", "Debian11/aarch64_ARM64/wtmp", "Debian13/RISC-V/wtmp", "CentOS7/x86_64/wtmp",
+           "CentOS9/x86_64/pacct", "Debian11/armv6l_ARMv6/pacct", "OpenSUSE15/wtmp", "FreeBSD14.0/x86_64/utx.log"]
+
+
+def foreign_layouts(sc, rep, rng, tier):
+    import math
+    done = []
+    for si, rel in enumerate(FOREIGN):
+        src = os.path.join(common.REPO, "logs", rel)
+        if not os.path.exists(src) or os.path.getsize(src) == 0:
+            continue
+        data = open(src, "rb").read()
+        name = os.path.basename(rel)
+        d = os.path.join(sc, "foreign", "s%d" % si)
+        os.makedirs(d)
+        with open(os.path.join(d, name), "wb") as f:
+            f.write(data)
+        r0 = common.run_s4(["--color", "never", name], cwd=d, trace=True, timeout=60)
+        ins = [(e["fo"], e["ts"], e["tu"]) for e in r0.trace if e["ev"] == "FsInsert"]
+        if r0.crashed or len(ins) < 3 or len({t for _, t, _ in ins}) < 2:
+            continue
+        recsz = 0
+        for fo, _, _ in ins:
+            recsz = math.gcd(recsz, fo)
+        recsz = math.gcd(recsz, len(data)) if recsz else 0
+        if recsz < 8:
+            continue
+        le32 = lambda b, o: int.from_bytes(b[o:o + 4], "little")
+        cand = [o for o in range(recsz - 3) if all(le32(data, fo + o) == (ts & 0xFFFFFFFF) for fo, ts, _ in ins)]
+        if len(cand) != 1:
+            continue
+        o_s = cand[0]
+        o_u = None
+        if any(tu for _, _, tu in ins):
+            cu = [o for o in range(recsz - 3) if o != o_s and all(le32(data, fo + o) == tu for fo, _, tu in ins)]
+            if len(cu) != 1:
+                continue
+            o_u = cu[0]
+        k = min(6, len(ins))
+        recs = [bytearray(data[fo:fo + recsz]) for fo, _, _ in ins[:k]]
+        T = min(ts for _, ts, _ in ins)
+        secs = [T + 5, T + 5, T + 1, T + 5, T + 3, T + 5][:k]
+        usecs = ([300, 100, 0, 200, 7, 100] if o_u is not None else [0] * 6)[:k]
+        # control: the same records with their own times must all be printed (the layout is still recognised)
+        with open(os.path.join(d, name), "wb") as f:
+            f.write(b"".join(bytes(r_) for r_ in recs))
+        rc_ = common.run_s4(["--color", "never", name], cwd=d, trace=True, timeout=60)
+        if rc_.crashed or sum(1 for e in rc_.trace if e["ev"] == "Print") != k:
+            continue
+        for r_, s_, u_ in zip(recs, secs, usecs):
+            r_[o_s:o_s + 4] = (s_ & 0xFFFFFFFF).to_bytes(4, "little")
+            if o_u is not None:
+                r_[o_u:o_u + 4] = u_.to_bytes(4, "little")
+        with open(os.path.join(d, name), "wb") as f:
+            f.write(b"".join(bytes(r_) for r_ in recs))
+        B = rng.choice([64, 512, 65536])
+        rr = common.run_s4(["--color", "never", "--blocksz", str(B), name], cwd=d, trace=True, timeout=60)
+        got = [(e["ds"], e["dn"]) for e in rr.trace if e["ev"] == "Print"]
+        want = [(s_, u_ * 1000) for s_, u_, _ in sorted(zip(secs, usecs, range(k)))]
+        rec = {"kind": "foreign", "sample": rel, "record_size": recsz, "seconds_at": o_s, "microseconds_at": o_u, "blocksz": B,
+               "times": list(zip(secs, usecs)), "printed": got}
+        nlines = len([ln for ln in rr.out.replace(b"\0", b"").split(b"\n") if ln])
+        if rr.crashed:
+            rep.violation("foreign:crash", "rc=%s on re-timed records of %s" % (rr.rc, rel), rec)
+        elif sorted(got) != sorted(want) or nlines != k:
+            rep.violation("foreign:selection", "%s: %d records re-timed, %d lines printed with instants %s" % (rel, k, nlines, got), rec)
+        elif got != want:
+            rep.violation("foreign:order", "%s (record size %d): records printed with instants %s, time order is %s" % (rel, recsz, got, want), rec)
+        done.append({"sample": rel, "record_size": recsz, "seconds_at": o_s, "microseconds_at": o_u, "records": k})
+    return done
+
+
 def run(pid, tier, seed):
     rep = Reporter(pid, tier, seed, "model_checking")
     rng = random.Random(seed * 8191 + 8)
@@ -245,13 +319,19 @@ def run(pid, tier, seed):
                 m = _re.search(r'"UNMATCHED",\s*(\d+)', tr.output)
                 k = int(m.group(1)) if m else 0
                 rep.note_drift("FixedStruct map trace not explained by Ordered.tla's machine at record %s: %s" % (k, trecs[k - 1] if 0 < k <= len(trecs) else tr.output[-300:]))
+        # ---- layouts of other systems (NetBSD / OpenBSD / 32-bit and other-architecture Linux): the sample files shipped
+        # in logs/ are the layout knowledge.  The reader's own FsInsert events on a sample give, per record, its offset and
+        # the (seconds, microseconds) it extracted; the bytes holding them are located in the record by value; a few records
+        # are then re-timed (same second, microseconds out of order, an earlier and a later second, an exact tie) and the
+        # printed instants (Print events, one per stdout line) must come in (seconds, microseconds, offset) order.
+        foreign = foreign_layouts(sc, rep, rng, tier)
         if predicted and "ties-lost" not in reproduced and "ties-lost" not in rep.known_hits:
             rep.note_drift("Ordered.tla with measured KEY=%s violates %s but no run reproduced a loss" % (key, predicted))
         rep.coverage = {"states": r.distinct + r2.distinct, "transitions": r.generated + r2.generated,
                         "traces_validated_against_impl": walks_ok, "evaluations": len(runs), "distinct_nontrivial": nontriv,
                         "rule": "every initial state of Ordered.tla (record-time sequence with nulls, window) is one instance, "
                                 "rendered as a Linux x86_64 utmp file; non-trivial = equal times or null records present",
-                        "samples": samples or [{"note": "no tie sample passed"}], "key_measured": key,
+                        "samples": samples or [{"note": "no tie sample passed"}], "key_measured": key, "foreign_layout_samples": foreign,
                         "model_prediction": predicted, "exhaustive": tier == "thorough",
                         "checker_cmd": r2.cmd}
         rep.assumptions = ["Linux x86_64 struct utmp (384 bytes), struct acct_v3 (64 bytes, unsigned 32-bit time incl. a value beyond "
